@@ -65,7 +65,9 @@ REQUIRED_BINS = ["ep_single", "ep_multi", "ep_double", "ep_revert", "ep_under_di
                  "converged_episode", "change_inside_tx_body", "write_aborted_at_command", "write_aborted_before_data",
                  "write_aborted_by_dir", "write_aborted_in_stp_cycle", "change_while_write_in_flight", "change_same_cycle_as_tx_start",
                  "regwrite_startable_while_txcmd_pending", "tx_waits_for_regwrite", "both_registers_pending", "with_rst_pin",
-                 "reg_data_nxt_throttled", "change_of_0x04_while_0x0a_in_flight", "revert_before_data_byte", "extra_register", "initial_random", "initial_near_reset"]
+                 "reg_data_nxt_throttled", "change_of_0x04_while_0x0a_in_flight", "revert_before_data_byte", "extra_register", "initial_random", "initial_near_reset",
+                 "extra_int_default", "extra_int_no_default", "extra_signal", "extra_two", "op_mode_3_requested", "op_mode_01_or_11_initially",
+                 "phy_dir_high_at_startup"]
 REQUIRED_EVENTS = ["writes_committed", "writes_value_checked", "convergence_checks", "tx_packets_completed", "progress_cycles_watched",
                    "control_changes"]
 ASSUMPTIONS = ["eventually = within 300 bus-free cycles (convergence) / 150 bus-free cycles (progress)",
@@ -99,13 +101,30 @@ def _run_case(rng, tier, res):
     with_rst = rng.random() < 0.2
     ulpi = make_ulpi(with_rst)
     dut = UTMITranslator(ulpi=ulpi, handle_clocking=False)
-    extra = {}
-    if rng.random() < 0.25:
-        # a constant extra register through the public add_extra_register() API (0x16 = ULPI scratch register): third entry of
-        # the control translator's register chain; it has to be written once after start-up
-        extra[0x16] = rng.randrange(256)
-        dut.add_extra_register(0x16, extra[0x16], default_value=extra[0x16] ^ rng.randint(1, 255))
+    extra = {}            # address -> constant value, or a Signal driven by the bench
+    extra_reset = {}      # address -> content of the PHY register after reset (None = unknown to the link)
+    extra_sig = None
+    if rng.random() < 0.4:
+        # extra registers through the public add_extra_register() API (0x16 = ULPI scratch, 0x31 = vendor): further entries of the
+        # control translator's register chain
+        from amaranth import Signal
+        variant = rng.choice(["int_default", "int_no_default", "signal", "two"])
         res.bin("extra_register")
+        res.bin("extra_" + variant)
+        if variant in ("int_default", "two"):
+            v = rng.randrange(256)
+            d = v if rng.random() < 0.2 else v ^ rng.randint(1, 255)      # default == value: no write may be needed, none is required
+            extra[0x16], extra_reset[0x16] = v, d
+            dut.add_extra_register(0x16, v, default_value=d)
+        if variant == "int_no_default":
+            extra[0x16], extra_reset[0x16] = rng.randrange(256), None     # the link has to write it once in any case
+            dut.add_extra_register(0x16, extra[0x16])
+        if variant in ("signal", "two"):
+            a = 0x31 if variant == "two" else 0x16
+            d = rng.randrange(256)
+            extra_sig = Signal(8, name="extra_value")
+            extra[a], extra_reset[a] = extra_sig, d
+            dut.add_extra_register(a, extra_sig, default_value=d)
     startup = 0
     if with_rst:
         startup = rng.randint(10, 60)
@@ -118,16 +137,23 @@ def _run_case(rng, tier, res):
     phy = ULPIPhy(b, ulpi, rng, cmd_latency=lat, tx_nxt=tx_nxt, reg_nxt=reg_nxt, garbage=rng.random() < 0.7)
     if reg_nxt != "always":
         res.bin("reg_data_nxt_throttled")
+    for a, d in extra_reset.items():
+        if d is not None:
+            phy.regs[a] = d
     ctl_sigs = {name: getattr(dut, name) for name, _ in CTL_FIELDS}
+    widths = dict(CTL_FIELDS)
+    if extra_sig is not None:
+        ctl_sigs["extra_value"] = extra_sig
+        widths["extra_value"] = 8
     b.watch(dut.tx_valid, dut.tx_data, dut.tx_ready, *ctl_sigs.values())
     res.desc = {"with_rst": with_rst, "startup": startup, "cmd_latency": lat, "reg_nxt": reg_nxt, "tx_nxt": tx_nxt, "episodes": []}
     res.sig(with_rst, startup, lat, reg_nxt, tx_nxt)
 
+    ctl0_extra = rng.randrange(256)
     ctl = dict(CTL_QUIET)               # = the PHY's reset values: nothing has to be written after start-up
     r0 = rng.random()
     if r0 < 0.3:
         ctl = {name: rng.randrange(1 << w) for name, w in CTL_FIELDS}
-        ctl["op_mode"] = rng.choice([0, 0, 2])
         res.bin("initial_random")
     elif r0 < 0.5:
         # one register differs from its reset value in one or two bits only (a link that assumes a wrong reset value, or
@@ -141,6 +167,8 @@ def _run_case(rng, tier, res):
             name, w = CTL_FIELDS[rng.randrange(len(CTL_FIELDS))]
             ctl[name] ^= 1
         res.bin("initial_near_reset")
+    if extra_sig is not None:
+        ctl["extra_value"] = ctl0_extra
 
     # ------------------------------------------------------------------ per-cycle history (index = cycle)
     addrs = [0x04, 0x0A] + sorted(extra)
@@ -169,7 +197,7 @@ def _run_case(rng, tier, res):
         req[0x04].append(function_control(cur))
         req[0x0A].append(otg_control(cur))
         for a in extra:
-            req[a].append(extra[a])
+            req[a].append(cur["extra_value"] if extra[a] is extra_sig else extra[a])
         for a in addrs:
             regs_hist[a].append(phy.regs.get(a))
         if st["prev_ctl"] is not None and cur != st["prev_ctl"]:
@@ -226,17 +254,21 @@ def _run_case(rng, tier, res):
     # ------------------------------------------------------------------ stimulus helpers
     def change(fields=None, n=1, allow_op=True, only_reg=None):
         names = [nm for nm, _ in CTL_FIELDS if (allow_op or nm != "op_mode")]
+        if extra_sig is not None and only_reg is None:
+            names += ["extra_value", "extra_value"]
         if only_reg == 0x04:
             names = [nm for nm in names if nm in ("xcvr_select", "term_select", "op_mode", "suspend")]
         elif only_reg == 0x0A:
             names = [nm for nm in names if nm not in ("xcvr_select", "term_select", "op_mode", "suspend")]
-        picked = fields or rng.sample(names, min(n, len(names)))
+        picked = fields or list(dict.fromkeys(rng.sample(names, min(n, len(names)))))
         old = {}
         for name in picked:
-            w = dict(CTL_FIELDS)[name]
+            w = widths[name]
             old[name] = ctl[name]
             if name == "op_mode":
-                ctl[name] = rng.choice([v for v in (0, 1, 2) if v != ctl[name]])
+                ctl[name] = rng.choice([v for v in (0, 1, 2, 3) if v != ctl[name]])
+                if ctl[name] == 3:
+                    res.bin("op_mode_3_requested")
             elif w > 1:
                 ctl[name] = (ctl[name] + rng.randint(1, (1 << w) - 1)) & ((1 << w) - 1)
             else:
@@ -340,6 +372,14 @@ def _run_case(rng, tier, res):
     def driver():
         for name, sig in ctl_sigs.items():
             b.set(sig, ctl[name])
+        if ctl["op_mode"] in (1, 3):
+            res.bin("op_mode_01_or_11_initially")
+        if rng.random() < 0.3:
+            # PHY start-up: DIR is held high for a while (RxCmds only) around the end of the link's own start-up delay, so the very
+            # first register writes are delayed / aborted
+            phy.schedule(act_rxcmds(rng, [rxcmd(rng.randrange(4), 3, 0) for _ in range(rng.randint(3, 30))], garbage=phy.garbage),
+                         at=rng.randint(0, startup + 8))
+            res.bin("phy_dir_high_at_startup")
         yield
         yield from idle(rng.randint(2, 10))
         ep0 = {"index": -1, "pattern": "initial"}
